@@ -153,8 +153,11 @@ impl Model {
                     let tx = Tx { conn: *conn, idx: *idx, ev };
                     // disconnect() writes nothing but a DISCONNECT: any other packet "completed"
                     // during it is the C01 finding (DISCONNECT bytes landing inside a partial packet)
+                    // (only where the stream is broken: a correct disconnect() first finishes a
+                    // partially written packet, which then legitimately completes during the call)
                     if t.op_at(ev).is_some_and(|o| log.ops[o].kind == "disconnect")
                         && !matches!(rec.pkt, CPacket::Disconnect { .. })
+                        && !t.conns[*conn].stream_ok
                     {
                         tainted += 1;
                         continue;
